@@ -21,6 +21,7 @@ from pyvc.unit import unit
 from pyvc import core
 
 LEVEL = "other"
+STANDIN_ALWAYS_THOROUGH = True      # its large bound takes seconds: used at both tiers
 EXPLANATION = ("MIXED. RequestHandler.set_cookie decided by case analysis on the real method with the real cookie library: every failing call (bad attribute text, bad name, "
                "unknown extra attribute, unsendable value) leaves the pending cookies exactly as they were, a successful call leaves exactly one pending cookie of that "
                "name whose header text passes the header validation of flush(). Emission, read-back through parse_cookie, exact attributes, last-setting-wins and "
